@@ -9,8 +9,16 @@ unsigned g_open_calls, g_mkpath_calls;
 char *strpbrk(const char *s, const char *accept) { (void) accept; return nondet_bool() ? NULL : (char *) s; }
 int verif_open(const char *path, int flags, int mode)
 {
-	(void) path; (void) flags; (void) mode;
+	(void) path; (void) mode;
 	g_open_calls++;
+	/* applicability of the write(2) model of rt_common.h (bytes land at the descriptor's own offset, which
+	 * starts at 0, so the file is exactly the bytes written): the file is opened for writing, created if
+	 * missing, and positioned at 0 -- O_APPEND would place every byte after whatever the file already holds,
+	 * unless the file is known to be empty at open (O_TRUNC, or O_EXCL creation) */
+	VASSERT((flags & O_ACCMODE) == O_WRONLY || (flags & O_ACCMODE) == O_RDWR, "open: the stream is opened for writing");
+	VASSERT((flags & O_CREAT) != 0, "open: the stream file is created when missing");
+	VASSERT((flags & O_APPEND) == 0 || (flags & O_TRUNC) != 0 || (flags & O_EXCL) != 0,
+		"open: bytes land at the descriptor's own offset from 0 (no O_APPEND onto a file that may hold stale bytes)");
 	return nondet_bool() ? -1 : 7;
 }
 #define open(p, f, m) verif_open((p), (f), (m))
@@ -55,6 +63,7 @@ __CPROVER_ensures(!(g_pos < 8) || g_byte == HDR_BYTE(g_pos))
 __CPROVER_ensures(g_store_calls == 1 && !g_store_failed && (g_keys_at_store & (K_MANDATORY | K_FINISHED)) == K_MANDATORY)
 __CPROVER_ensures(g_open_calls == __CPROVER_old(g_open_calls) + 1)
 ;
+#ifndef H_INIT_AGAIN
 void h_ovni_thread_init(void)
 {
 	pid_t tid;
@@ -62,3 +71,21 @@ void h_ovni_thread_init(void)
 	REACH("ovni_thread_init returns");
 	if (g_pos == 4) REACH("observer on the version byte");
 }
+#else
+/* a repeated ovni_thread_init on a thread that is already tracing is IGNORED with a warning
+ * (doc/user/runtime/index.md): the frame is the diagnostic counters only, so the buffered events,
+ * the CPUs, the metadata, the descriptor and the bytes already on disk are all untouched --
+ * nothing the thread emitted so far is forgotten or overwritten (C01 exactly once, C02, C11) */
+void c_ovni_thread_init_again(pid_t tid)
+__CPROVER_requires(rthread.ready != 0 && DIAG_PRE)
+__CPROVER_assigns(DIAG_FRAME)
+__CPROVER_ensures(g_warn == __CPROVER_old(g_warn) + 1 && g_err == __CPROVER_old(g_err))
+;
+void h_ovni_thread_init_again(void)
+{
+	pid_t tid;
+	ovni_thread_init(tid);
+	REACH("repeated ovni_thread_init returns");
+	if (rthread.evlen > 0) REACH("repeated ovni_thread_init with events still buffered");
+}
+#endif
